@@ -1,5 +1,210 @@
+/-
+C16 — the neighbour engine always reflects exactly the currently positioned residues.
+
+  "After any sequence of adding, removing and consolidating residue positions, position queries return
+   the last position given (or undefined after removal), and overlap/force queries take into account
+   exactly the residues currently positioned within the cut-off under periodic boundaries, minus the
+   stated exclusions, with each pair force equal to the negative gradient of the 12-6 potential for the
+   pair's size. Minimum-image distances are symmetric, periodic in each box vector and never exceed the
+   direct distance."
+
+Property theorems only; the model is `Model/Engine.lean` (tied to `nonbond_engine.py` by the
+correspondence of harness/c16.py on every run), lemmas are in `Proofs/Engine.lean`,
+`Proofs/Geometry.lean`, `Proofs/LJGradientC16.lean`.  All theorems hold for every parameter set — in
+particular for every tree-opening threshold `T` and floor, so also for the translated `5000` / `0.1`.
+-/
+import PolyplyVerif.Model.Geometry
 import PolyplyVerif.Model.Engine
 import PolyplyVerif.Proofs.Geometry
+import PolyplyVerif.Proofs.Engine
+import PolyplyVerif.Proofs.LJGradientC16
+
 namespace PolyplyVerif.C16
-theorem C16_placeholder : True := trivial
+open PolyplyVerif.Geometry PolyplyVerif.Engine
+
+/-! ### a concrete history used by the non-vacuity examples: threshold 1, so the second `start` add
+opens a new tree; a tree is emptied; a removed residue is added again; trees are consolidated -/
+
+def exP : Params :=
+  { n := 5, L := ⟨4, 3, 5⟩, cut := 1, floor := 1 / 10, T := 1, inter := fun _ _ => (1 / 2, 1) }
+
+def exInit : Nat → Option V3 := fun g =>
+  if g = 0 then some ⟨1, 1, 1⟩ else if g = 1 then some ⟨2, 1, 1⟩ else none
+
+def exOps : List Op :=
+  [.add 2 ⟨1 / 2, 1, 1⟩ true,      -- tree 0 holds 2 > T points: tree 1 is opened
+   .add 3 ⟨7 / 2, 1, 1⟩ false,     -- appended to tree 1
+   .remove [2, 3, 2],               -- tree 1 is emptied (the repeated node is skipped)
+   .add 2 ⟨15 / 4, 1, 1⟩ true,     -- re-added (into the empty last tree)
+   .remove [0],                     -- removal from the older tree
+   .concat]
+
+theorem exInit_ok : ∀ g p, exInit g = some p → g < exP.n ∧ inBox p exP.L := by
+  intro g p h
+  unfold exInit at h
+  split at h
+  · cases h; subst_vars; decide +kernel
+  · split at h
+    · cases h; subst_vars; decide +kernel
+    · cases h
+
+/-- **Invariant.**  From any admissible initial position table, after every operation sequence that
+respects the protocol (`add` only for an unpositioned node, with a point inside the box), the four
+views agree: a residue is positioned iff it occurs in the index list of a tree; no index list has a
+repetition and no residue is in two trees; `gndx_to_tree` names exactly that tree; every search tree
+holds the current positions of its index list.  Induction over the sequence — emptying a tree,
+re-adding, and crossing the threshold `T` included, for every `T`. -/
+theorem C16_inv (P : Params) (pos0 : Nat → Option V3)
+    (hinit : ∀ g p, pos0 g = some p → g < P.n ∧ inBox p P.L)
+    (ops : List Op) (hok : okSeq P (build P pos0) ops) :
+    Inv P (run P (build P pos0) ops) := by
+  apply Proofs.Engine.inv_run ops _ hok
+  apply Proofs.Engine.inv_build
+  · intro g hs
+    cases hq : pos0 g with
+    | none => rw [hq] at hs; cases hs
+    | some p => exact (hinit g p hq).1
+  · intro g p hq; exact (hinit g p hq).2
+
+example : okSeq exP (build exP exInit) exOps := by decide +kernel
+example : (run exP (build exP exInit) (exOps.take 2)).nt = 2 := by decide +kernel
+example : (run exP (build exP exInit) (exOps.take 3)).defined 1 = [] := by decide +kernel
+
+/-- The invariant in the words of the design: a residue is positioned iff it occurs **exactly once**
+in the joined index lists (and never more than once), and `gndx_to_tree` maps it to the tree whose
+list holds it; the stored tree points are the current positions. -/
+theorem C16_inv_views (P : Params) (s : State) (h : Inv P s) :
+    (∀ g, (s.pos g).isSome ↔ (definedList s).count g = 1) ∧
+    (∀ g, (definedList s).count g ≤ 1) ∧
+    (∀ g t, s.g2t g = some t ↔ (t < s.nt ∧ g ∈ s.defined t)) ∧
+    (∀ t, t < s.nt → s.trees t = (s.defined t).map s.pos) := by
+  refine ⟨?_, ?_, h.g2t_iff, fun t ht => h.trees_eq t ht (fun x => x)⟩
+  · intro g
+    rw [Proofs.Engine.count_definedList h g]
+    by_cases hs : (s.pos g).isSome <;> simp [hs]
+  · intro g
+    rw [Proofs.Engine.count_definedList h g]
+    split <;> omega
+
+example : definedList (run exP (build exP exInit) (exOps.take 4)) = [0, 1, 2] := by decide +kernel
+
+/-- **Refinement to the set of positioned residues.**  After every protocol-conforming history:
+(1) the position table is the abstract map "last position given, none after removal", so `get_point`
+returns it; (2) for every query point inside the box, every node and every exclusion list, the force
+computed from the trees and index lists equals the specification's force: `inf` iff some positioned
+residue within the cut-off is closer than the floor, otherwise the sum of the 12-6 pair forces
+(minimum-image distance and direction) over exactly the positioned, non-excluded residues within the
+cut-off (`C16_spec_exact` spells out "exactly"). -/
+theorem C16_refines_set (P : Params) (hL : boxPos P.L) (pos0 : Nat → Option V3)
+    (hinit : ∀ g p, pos0 g = some p → g < P.n ∧ inBox p P.L)
+    (ops : List Op) (hok : okSeq P (build P pos0) ops) :
+    (∀ g, getPoint (run P (build P pos0) ops) g = absRun pos0 ops g) ∧
+    (∀ point g excl, inBox point P.L →
+      force P (run P (build P pos0) ops) point g excl = specForce P (absRun pos0 ops) point g excl) := by
+  have hinv0 : Inv P (build P pos0) := by
+    apply Proofs.Engine.inv_build
+    · intro g hs
+      cases hq : pos0 g with
+      | none => rw [hq] at hs; cases hs
+      | some p => exact (hinit g p hq).1
+    · intro g p hq; exact (hinit g p hq).2
+  have hpos : (run P (build P pos0) ops).pos = absRun pos0 ops := Proofs.Engine.run_pos ops hinv0 hok
+  have hinv := Proofs.Engine.inv_run ops hinv0 hok
+  constructor
+  · intro g; unfold getPoint; rw [hpos]
+  · intro point g excl hp
+    rw [Proofs.Engine.force_refines hinv hL point hp g excl, hpos]
+
+example : boxPos exP.L := by decide +kernel
+example : absRun exInit exOps 2 = some ⟨15 / 4, 1, 1⟩ ∧ absRun exInit exOps 0 = none ∧
+    absRun exInit exOps 3 = none := by decide +kernel
+/-- a query across the x-face: the residue at x = 15/4 is within the cut-off of x = 1/4 (distance 1/2) -/
+example : (specNear exP (absRun exInit exOps) ⟨1 / 4, 1, 1⟩).map (·.1) = [2] := by decide +kernel
+
+/-- **Exactly the positioned residues within the cut-off.**  The list the specification sums over
+contains `(h, q, d²)` iff `h` is a residue currently positioned at `q` whose minimum-image distance `d`
+to the query point is within the cut-off; and each residue occurs at most once. -/
+theorem C16_spec_exact (P : Params) (m : Nat → Option V3) (point : V3) :
+    (∀ e : Nat × V3 × Rat, e ∈ specNear P m point ↔
+      e.1 < P.n ∧ m e.1 = some e.2.1 ∧ e.2.2 = minImageSq point e.2.1 P.L ∧ e.2.2 ≤ P.cut * P.cut) ∧
+    ((specNear P m point).map (·.1)).Nodup :=
+  ⟨Proofs.Engine.mem_specNear P m point, Proofs.Engine.nodup_specNear P m point⟩
+
+/-- Inside the box, the direction the force is applied along has exactly the length the magnitude was
+computed for, and that length is `pbc_min_dist` (the KD-tree's distance, the `np.round` image vector and
+the `%`-based minimum image agree).  The defect fixed in 173d860 violated the first equation. -/
+theorem C16_force_vector_consistent (p q L : V3) (hL : boxPos L) (hp : inBox p L) (hq : inBox q L) :
+    (minImageVec p q L).normSq = minImageSq p q L ∧ kdDistSq p q L = minImageSq p q L :=
+  ⟨Proofs.Geometry.normSq_minImageVec p q L hL hp hq, Proofs.Geometry.kdDistSq_eq_minImageSq p q L hL hp hq⟩
+
+example : minImageVec ⟨1 / 4, 1, 1⟩ ⟨15 / 4, 1, 1⟩ ⟨4, 3, 5⟩ = ⟨1 / 2, 0, 0⟩ := by decide +kernel
+
+/-- **Pair force = negative gradient of the 12-6 potential** (ℝ).  For a pair of size `σ`, depth `ε`
+and a non-zero separation vector `(x, y, z)` with `r = √(x²+y²+z²)`:
+(radial) `V'(r) = −ljCoef σ ε r² · r`, and (gradient) every partial derivative of `(x,y,z) ↦ V(‖(x,y,z)‖)`
+is minus the corresponding component `ljCoef σ ε r² · x` of the model's pair force. -/
+theorem C16_force_gradient (sig eps : ℚ) (x y z : ℚ) (hne : 0 < x * x + y * y + z * z) :
+    let r2 : ℚ := x * x + y * y + z * z
+    let r : ℝ := Real.sqrt r2
+    HasDerivAt (Proofs.LJ.V eps sig) (-(((ljCoef sig eps r2 : ℚ) : ℝ) * r)) r ∧
+    HasDerivAt (fun u : ℝ => Proofs.LJ.V eps sig (Real.sqrt (u ^ 2 + ((y : ℝ) ^ 2 + (z : ℝ) ^ 2))))
+      (-(((ljCoef sig eps r2 * x : ℚ) : ℝ))) x ∧
+    HasDerivAt (fun u : ℝ => Proofs.LJ.V eps sig (Real.sqrt (u ^ 2 + ((x : ℝ) ^ 2 + (z : ℝ) ^ 2))))
+      (-(((ljCoef sig eps r2 * y : ℚ) : ℝ))) y ∧
+    HasDerivAt (fun u : ℝ => Proofs.LJ.V eps sig (Real.sqrt (u ^ 2 + ((x : ℝ) ^ 2 + (y : ℝ) ^ 2))))
+      (-(((ljCoef sig eps r2 * z : ℚ) : ℝ))) z := by
+  intro r2 r
+  have hposR : (0 : ℝ) < ((r2 : ℚ) : ℝ) := by exact_mod_cast hne
+  have hr0 : r ≠ 0 := ne_of_gt (Real.sqrt_pos.mpr hposR)
+  have hsq : r ^ 2 = ((r2 : ℚ) : ℝ) := Real.sq_sqrt hposR.le
+  have hcast : ((r2 : ℚ) : ℝ) = (x : ℝ) ^ 2 + (y : ℝ) ^ 2 + (z : ℝ) ^ 2 := by
+    simp only [r2]; push_cast; ring
+  refine ⟨?_, ?_, ?_, ?_⟩
+  · have h := Proofs.LJ.lj_grad eps sig r hr0
+    rw [← Proofs.LJ.ljCoefR_eq sig eps r hr0, hsq, ← Proofs.LJ.ljCoef_cast] at h
+    exact h
+  · have e : (x : ℝ) ^ 2 + ((y : ℝ) ^ 2 + (z : ℝ) ^ 2) = ((r2 : ℚ) : ℝ) := by rw [hcast]; ring
+    have h := Proofs.LJ.lj_partial eps sig x ((y : ℝ) ^ 2 + (z : ℝ) ^ 2) (by rw [e]; exact hposR)
+    rw [e, ← Proofs.LJ.ljCoef_cast] at h
+    push_cast
+    exact h
+  · have e : (y : ℝ) ^ 2 + ((x : ℝ) ^ 2 + (z : ℝ) ^ 2) = ((r2 : ℚ) : ℝ) := by rw [hcast]; ring
+    have h := Proofs.LJ.lj_partial eps sig y ((x : ℝ) ^ 2 + (z : ℝ) ^ 2) (by rw [e]; exact hposR)
+    rw [e, ← Proofs.LJ.ljCoef_cast] at h
+    push_cast
+    exact h
+  · have e : (z : ℝ) ^ 2 + ((x : ℝ) ^ 2 + (y : ℝ) ^ 2) = ((r2 : ℚ) : ℝ) := by rw [hcast]; ring
+    have h := Proofs.LJ.lj_partial eps sig z ((x : ℝ) ^ 2 + (y : ℝ) ^ 2) (by rw [e]; exact hposR)
+    rw [e, ← Proofs.LJ.ljCoef_cast] at h
+    push_cast
+    exact h
+
+example : (0 : ℚ) < (1 / 2) * (1 / 2) + 0 * 0 + 0 * 0 := by norm_num
+
+/-- minimum-image distances are symmetric -/
+theorem C16_minimage_symm (a b L : V3) : minImageSq a b L = minImageSq b a L :=
+  Proofs.Geometry.minImageSq_symm a b L
+
+/-- … periodic in each box vector: translating a point by `k₁L₁e₁ + k₂L₂e₂ + k₃L₃e₃` changes nothing -/
+theorem C16_minimage_periodic (a b L : V3) (hL : boxPos L) (kx ky kz : ℤ) :
+    minImageSq ⟨a.x + L.x * kx, a.y + L.y * ky, a.z + L.z * kz⟩ b L = minImageSq a b L :=
+  Proofs.Geometry.minImageSq_periodic a b L hL kx ky kz
+
+/-- … and never exceed the direct distance -/
+theorem C16_minimage_le_direct (a b L : V3) (hL : boxPos L) : minImageSq a b L ≤ (a - b).normSq :=
+  Proofs.Geometry.minImageSq_le_direct a b L hL
+
+example : minImageSq ⟨1 / 4, 1, 1⟩ ⟨15 / 4, 1, 1⟩ ⟨4, 3, 5⟩ = 1 / 4 ∧
+    (V3.normSq ((⟨1 / 4, 1, 1⟩ : V3) - ⟨15 / 4, 1, 1⟩)) = 49 / 4 := by decide +kernel
+
+/-- Why the protocol precondition is there (recorded, not excluded silently): adding onto a residue
+that is already positioned leaves it twice in the index list, and a force query counts it twice —
+the model's force is no longer the specification's force.  The program never does this
+(`add_positions` is only called for nodes without position); see notes/C16_findings.md. -/
+theorem C16_double_add_counts_twice :
+    let s := add exP (build exP exInit) 1 ⟨2, 1, 1⟩ false
+    s.defined 0 = [0, 1, 1] ∧
+    force exP s ⟨11 / 4, 1, 1⟩ 4 [] ≠ specForce exP s.pos ⟨11 / 4, 1, 1⟩ 4 [] := by
+  decide +kernel
+
 end PolyplyVerif.C16
